@@ -18,7 +18,7 @@ CHECKS = {
  "C07": ("model_checking", "deviation-bounded stateless depth-first exploration of the real KafkaClient's public API over every small cluster layout, payload order, failing-broker subset and reply order",
          "All 14 maps of 4 partitions onto <=3 brokers (plus leaderless variants), every ordering of every payload subset (size 1-3) for produce/fetch and size 2 for list-offsets/offset-fetch/offset-commit, broker-agnostic metadata calls cold, warmed-up and partially connected with every shuffle rotation; deviations: per-broker refuse/drop/silent/error, cross-broker reply order, timers overtaking I/O. The oracle reads the wire and the call result: leader/coordinator routing against the latest metadata delivered, one request per broker per call, responses in payload order, exact partition of the input on partial failure, connected-first and try-everyone before KafkaUnavailableError.",
          "SimCluster is Kafka; <=3 brokers, 4 partitions", "5/C07"),
- "C11": ("model_checking", "deviation-bounded stateless depth-first exploration of timer/reply races on a warmed-up KafkaClient",
+ "C11": ("model_checking", "deviation-bounded stateless depth-first exploration of timer/reply races on a warmed-up KafkaClient and on the real group member (request timers read from the virtual clock's journal)",
          "48 configurations (timeout 1 s / 10 s, disconnect_on_timeout on/off, connections open or not, six mixes of 1-3 concurrent calls incl. JoinGroup with its 35 s minimum and an acks=0 produce); each broker answer may be prompt, late (the timer overtakes it and the reply is delivered afterwards) or missing, a connection may never establish, replies in any order; <=4 (quick) / <=5 (thorough) deviations. Oracle on virtual time: every call resolves within its bound, timeouts only at the bound and only without a reply, no timer left armed after completion, late replies change nothing, disconnect-on-timeout drops the connection and re-sends the rest once and in order.",
          "virtual time only moves through timer events; hung connection attempts end by the endpoint's own 30 s timeout (afkak relies on it)", "5/C11"),
  "C20": ("model_checking", "deviation-bounded stateless depth-first exploration with close() injectable at every state and every order of the events that follow",
@@ -51,19 +51,19 @@ CHECKS = {
  "C10": ("model_checking", "explicit-state breadth-first search over the real broker-connection objects with connection loss in every state, fingerprint-deduplicated, depth-bounded",
          "Same engine as C06 with the alphabet centred on loss: drop enabled in every state, repeated refusals, backoff timers (retryPolicy(k)=0.5k makes the failure count observable), cancels, no-reply requests, close at every state; depth 9-10 (quick) / 11-13 (thorough). The oracle compares, per connection, the frames the broker received with the reference model's pending list (issue order, once each), checks reconnect/idle rules, backoff instants, and the close contract.",
          "small scope (<=3 requests, <=2 frames per connection); virtual endpoint/transport contracts", "5/C10"),
- "C18": ("exploration", "bounded-exhaustive key enumeration against Kafka's murmur2 on the JVM; exhaustive enumeration of round-robin selection histories",
+ "C18": ("exploration", "bounded-exhaustive key enumeration against Kafka's murmur2 on the JVM; exhaustive enumeration of round-robin selection histories (fresh and in-place updated lists); the real Producer on clusters listing partitions in any order",
          "pure_murmur2 and HashedPartitioner.partition are compared with Kafka's Utils.murmur2 executed on the installed JVM for every key of length 0..8 (quick) / 0..9 (thorough) over a 6-byte alphabet covering every length mod 4 and bytes >= 0x80, plus long and text keys; the round-robin partitioner is driven through every sequence of partition() calls (depth 8/10/12) over four partition lists with every randint answer and checked for window fairness and restart after a list change.",
          "Java ground truth is a transcription of Utils.murmur2 validated on the JVM against Kafka's published vectors; key space and history depth bounded", "5/C18"),
  "C05": ("exploration", "bounded-exhaustive enumeration of well-formed responses and message sets from an independent encoder, decoded by afkak and compared field by field",
          "Every response layout afkak decodes (14 layouts + 2 embedded blobs) is generated by refkafka from the product of small value domains (all error codes, boundary ints, null/empty strings, 0..2 topics/partitions/members) and every message-set shape (both magics, gzip/snappy wrappers with relative and absolute inner offsets, gaps, nesting depth 2) and decoded by the real decoders; equality of all fields, offsets and timestamps is required, plus afkak encode->decode identity.",
          "refkafka is the independent encoder; snappy is a conformant shim", "5/C05"),
- "C04": ("exploration", "bounded-exhaustive enumeration of request shapes through afkak's encoders, strictly parsed by an independent grammar implementation",
+ "C04": ("exploration", "bounded-exhaustive enumeration of request shapes through afkak's encoders, strictly parsed by an independent grammar implementation, plus deviation-bounded depth-first exploration of producer, consumer and group member with every request on the wire parsed strictly",
          "All 13 request encoders and the 2 embedded blobs are driven with the product of boundary values per field width, string/bytes classes (null, empty, non-ASCII, long), payload orders and codecs; the bytes must parse under refkafka's strict parser (whole frame consumed, CRCs, magic per version, codec attributes) to exactly the supplied values. Version negotiation is explored on the real Producer/Consumer+KafkaClient against 12 advertised version tables and two kinds of legacy broker with requests issued before/during/after discovery (deviation-bounded DFS).",
          "refkafka's strict parser is the grammar (DESIGN.md Appendix A)", "5/C04"),
- "C12": ("fault_enumeration", "exhaustive enumeration of bit flips, bursts, truncations and hostile field overwrites on a reference-encoded corpus",
+ "C12": ("fault_enumeration", "exhaustive enumeration of bit flips, bursts, truncations and hostile field overwrites (single and count+back-jump pairs) on a reference-encoded corpus, plus bit errors injected in flight into the real consumer's fetch answers",
          "Every single-bit flip and every burst (all interior patterns up to 8/10 bits, three patterns up to 16/32 bits) of every message of a 20-set corpus must raise ChecksumError without yielding the altered message; every truncation point must yield exactly the complete prefix or ConsumerFetchSizeTooSmall; every decoder is fed every truncation and every 1/2/4-byte hostile overwrite of a valid response under a deterministic linear cost budget, and all short strings over a hostile alphabet.",
          "CRC-32 theory is not assumed: every case is executed; compression bombs excluded; cost measured by traced line events and tracemalloc", "5/C12"),
- "C15": ("exploration", "bounded-exhaustive enumeration of inputs through the real leader path against a reference codec",
+ "C15": ("exploration", "bounded-exhaustive enumeration of inputs through the real leader path against a reference codec, plus deviation-bounded depth-first exploration of the real ConsumerGroup as leader over several generations while topics change",
          "Every member set (<=3 quick / <=4 thorough ids, every order), every subscription map and every partition map from a small menu is pushed through the real decode_join_group_response -> generate_assignments -> encode_sync_group_request -> decode_assignment path; the oracle checks exactly-once ownership, subscriber-only, balance, order independence and per-member decode. Exhaustive within the stated scope; input enumeration is the right level because the property quantifies over inputs only.",
          "small-scope hypothesis; refkafka (independent table-driven codec) builds and parses the frames", "5/C15"),
 }
@@ -91,7 +91,7 @@ def main():
         "setup_cmd": "bin/setup",
         "hooks": {
             "guard": "AFKAK_VERIF",
-            "enable": "no source hooks exist: harness processes monkey-patch module attributes (afkak.client.random, afkak.kafkacodec.time, afkak.partitioner.randint) and import afkak from /repo's working tree; AFKAK_VERIF=1 is exported for uniformity only",
+            "enable": "no source hooks exist: harness processes monkey-patch module attributes (afkak.client.random, afkak.kafkacodec.time, afkak.partitioner.randint, and gzip.time for the header timestamp) and import afkak from /repo's working tree; AFKAK_VERIF=1 is exported for uniformity only",
             "baseline_off_cmd": "cd /repo && /venv/bin/python -m pytest -q -p no:cacheprovider --timeout=900",
             "source_commits": [],
             "add_only": True,
